@@ -1,4 +1,5 @@
 import Ymq.Props.C18
+import Ymq.Props.C18C19
 #print axioms Ymq.C18.b_plus_unique
 #print axioms Ymq.C18.parity_exactly_one
 #print axioms Ymq.C18.bPlus_spec_odd
@@ -20,3 +21,4 @@ import Ymq.Props.C18
 #print axioms Ymq.C18.reduced_enum
 #print axioms Ymq.C18.invariants_multiply
 #print axioms Ymq.C18.invariantsOk_spec
+#print axioms Ymq.C18C19.reported_invariants_multiply
